@@ -106,6 +106,15 @@ def winsFrom (ρ : Rounding) : Option Row → List Row → List Win
     { start := x.date - so, stop := x.date + eo, date := x.date, rate := x.rate }
       :: winsFrom ρ (some x) rest
 
+/-- the two condition columns of the date-sorted rows of one group, row by row:
+(`Use Previous Condition`, `Use Next Condition`).  The first row has no previous row and the last no next
+row (`diff()` gives NaN there, the comparison False). -/
+def condsFrom : Option Row → List Row → List (Bool × Bool)
+  | _, [] => []
+  | prev, x :: rest =>
+    ((match prev with | none => false | some y => prevCond y.rate x.rate),
+     (match rest with | [] => false | z :: _ => nextCond x.rate z.rate)) :: condsFrom (some x) rest
+
 /-- `calculate_volume_emitted`: window days -/
 def Win.days (w : Win) : Int := w.stop - w.start
 
@@ -128,6 +137,17 @@ def groupRows (S E : Int) (rows : List Row) : List Row :=
 /-- the windows of one group -/
 def groupWins (ρ : Rounding) (S E : Int) (rows : List Row) : List Win :=
   winsFrom ρ none (groupRows S E rows)
+
+/-- the condition columns of one group -/
+def groupConds (S E : Int) (rows : List Row) : List (Bool × Bool) :=
+  condsFrom none (groupRows S E rows)
+
+/-- the two conditions of neighbouring rows are complementary: the later row uses its previous
+condition exactly when the earlier row does not use its next condition; the first row never uses the
+previous, the last never the next condition -/
+def Complementary : List (Bool × Bool) → Prop
+  | a :: b :: t => b.1 = !a.2 ∧ Complementary (b :: t)
+  | _ => True
 
 /-- a list of half-open windows partitions `[S, E)`: the first starts at `S`, each window is
 non-negative, each next window starts where the previous stops, the last stops at `E` -/
